@@ -13,21 +13,24 @@ CHECKS = {
                  "{fast, slow, slower than the reload timeout, delay before/after the open} and a shutdown at a seeded position, "
                  "interleaved by the seeded scheduler at the verif yield points. A run is non-trivial when at least one reload ran "
                  "with a reader present or the scheduler pre-empted an enabled task; distinct = distinct hash of the full "
-                 "(task, yield point) schedule plus monitor event log."),
+                 "(task, yield point) schedule plus monitor event log. One history in 12 (quick) or 3 (thorough) runs on the REAL cdb / rocksdb "
+                 "drivers instead (queries through ServeDNS are the readers, reloads publish real files, unreadable and key-less targets, injected "
+                 "errors and delays, shutdown at a seeded position) under the same monitor, plus a count of RocksDB secondary log directories."),
         "components": {
             "real": REAL_SERVER,
             "stub": ["storage back end: in-memory db.DBI with RocksDB-like (same path = same back end) or CDB-like (always new) "
                      "reload behaviour, wrapped by the open/use/close monitor"],
             "simulated": ["clock, timers, context deadlines (testing/synctest)", "goroutine scheduling at yield points (seeded)"],
-            "not_run": ["real cdb / rocksdb drivers (thorough tier of C05/C14 runs them under the same monitor)", "fsnotify watchers"],
+            "real_in_a_share_of_runs": ["cdb driver on real CDB files (mmap)", "rocksdb driver on real RocksDB directories (secondary + in-process primary)", "FBDNSDB.ServeDNS as the reader"],
+            "not_run": ["fsnotify watchers"],
         },
         "assumptions": [
             "interleavings are explored at the granularity of the verif yield points; code between two points runs atomically",
             "the select tie of db.Reload (worker done and timeout in the same instant) is not reachable under the scheduler",
             "no reader acquisition is started after shutdown began (the server stops its listeners first)",
         ],
-        "required_probes": {"quick": ["reload_ok", "reload_timed_out", "validation_failed", "reload_error"],
-                            "thorough": ["reload_ok", "reload_timed_out", "validation_failed", "reload_error"]},
+        "required_probes": {"quick": ["reload_ok", "reload_timed_out", "validation_failed", "reload_error", "real_backend_history_with_shutdown"],
+                            "thorough": ["reload_ok", "reload_timed_out", "validation_failed", "reload_error", "real_backend_history_with_shutdown"]},
     },
     "C05": {
         "test": "TestC05",
